@@ -264,6 +264,8 @@ def run_lines(exe, lines, env_extra=None, timeout=None):
         complete = complete[:len(chunk)]
         outs.extend(complete)
         i += len(complete)
+        if len(complete) < len(chunk) and rc == 77:
+            continue   # the harness asked for a fresh process after answering its last case (e.g. parked threads left over)
         if len(complete) < len(chunk):
             err = se.decode(errors='replace')
             kind = 'timeout' if rc == -999 else classify_crash(err, rc)
@@ -369,27 +371,59 @@ def write_json(path, obj):
     os.replace(tmp, path)
 
 
-def evaluate(P, cases, exes, want_model=True):
-    """run cases on implementation and model; returns list of dict per case"""
+def _oracle_fails(P, c, io):
+    try:
+        res = P.oracle(c, io)
+    except Exception as e:
+        res = ('oracle-exception', f'{type(e).__name__}: {e}')
+    if io.startswith('CRASH') and res is None:
+        res = ('no-crash', io)
+    return res
+
+
+def evaluate(P, cases, exes, want_model=True, budget_s=600, stop_after=40, chunk=1000):
+    """run cases on implementation and model, chunk by chunk.  Stops early (remaining cases stay None = not
+    evaluated) once `stop_after` oracle failures are in hand or the wall-clock budget is used up: a broken tree must
+    not turn a 1-minute check into hours."""
+    t_end = time.time() + budget_s
     by_h = {}
     for idx, c in enumerate(cases):
         by_h.setdefault(c.harness, []).append(idx)
     impl = [None] * len(cases)
     crashes = []
+    nfail = 0
+    stopped = None
     for hname, idxs in by_h.items():
-        outs, cr = run_lines(exes[hname], [cases[i].line for i in idxs], env_extra=getattr(P, 'HARNESS_ENV', None))
-        for i, o in zip(idxs, outs):
-            impl[i] = o
-        for c in cr:
-            if c['index'] is not None:
-                c['case_index'] = idxs[c['index']]
-            crashes.append(c)
+        for off in range(0, len(idxs), chunk):
+            if nfail >= stop_after:
+                stopped = stopped or f'stopped after {nfail} oracle failures'
+                break
+            if time.time() > t_end:
+                stopped = stopped or f'time budget of {budget_s}s used up'
+                break
+            part = idxs[off:off + chunk]
+            outs, cr = run_lines(exes[hname], [cases[i].line for i in part], env_extra=getattr(P, 'HARNESS_ENV', None),
+                                 timeout=max(60, 0.2 * len(part)))
+            for i, o in zip(part, outs):
+                impl[i] = o
+                if _oracle_fails(P, cases[i], o) is not None:
+                    nfail += 1
+            for c in cr:
+                if c['index'] is not None:
+                    c['case_index'] = part[c['index']]
+                crashes.append(c)
     model = [None] * len(cases)
     model_crashes = []
     if want_model:
-        outs, model_crashes = run_lines(STATE['driver'], [c.line for c in cases])
-        for i, o in enumerate(outs):
-            model[i] = o
+        done = [i for i, o in enumerate(impl) if o is not None]
+        for off in range(0, len(done), 5000):
+            part = done[off:off + 5000]
+            outs, mc = run_lines(STATE['driver'], [cases[i].line for i in part], timeout=max(60, 0.05 * len(part)))
+            for i, o in zip(part, outs):
+                model[i] = o
+            model_crashes.extend(mc)
+    if stopped:
+        log('evaluation', stopped, f'({sum(1 for o in impl if o is not None)}/{len(cases)} cases evaluated)')
     return impl, model, crashes, model_crashes
 
 
@@ -480,10 +514,12 @@ def _run_cases(P, prop_id, tier, seed, rng, t0, broken, notes, axioms, driver_ok
                         if ln and not ln.startswith('#'):
                             hn, _, body = ln.partition('\t')
                             cases.append(Case(body, hn, ('corpus', fn), 'corpus'))
-        escalate = bool(broken)
-        cases.extend(P.generate(rng, tier if not escalate else 'thorough'))
+        cases.extend(P.generate(rng, tier))
     cases = [c for c in cases if c.harness in exes]
-    impl, model, crashes, model_crashes = evaluate(P, cases, exes, want_model=driver_ok)
+    impl, model, crashes, model_crashes = evaluate(P, cases, exes, want_model=driver_ok, budget_s=(420 if tier == 'quick' else 5400))
+    not_evaluated = sum(1 for o in impl if o is None)
+    if not_evaluated:
+        notes.append(f'{not_evaluated} generated cases were not evaluated (early stop after failures / time budget)')
     if model_crashes:
         broken.append({'kind': 'model-driver', 'what': f'model driver failed on {len(model_crashes)} case(s): ' + str(model_crashes[0])[:500]})
 
@@ -497,12 +533,7 @@ def _run_cases(P, prop_id, tier, seed, rng, t0, broken, notes, axioms, driver_ok
             tagcount[t] = tagcount.get(t, 0) + 1
         if io is None:
             continue
-        try:
-            res = P.oracle(c, io)
-        except Exception as e:  # an oracle that cannot parse the observation: treat as failure of the tie
-            res = ('oracle-exception', f'{type(e).__name__}: {e}')
-        if io.startswith('CRASH') and res is None:
-            res = ('no-crash', io)
+        res = _oracle_fails(P, c, io)
         if res is not None:
             clause, detail = res
             failures.append({'case': c, 'impl': io, 'model': mo, 'clause': clause, 'detail': detail,
@@ -529,16 +560,14 @@ def _run_cases(P, prop_id, tier, seed, rng, t0, broken, notes, axioms, driver_ok
             if hasattr(P, 'mutate_around'):
                 for d in disagreements[:20]:
                     extra.extend(P.mutate_around(d['case'], r2))
-            extra.extend(P.generate(r2, 'thorough' if k > 1 else 'quick'))
+            extra.extend(P.generate(r2, 'quick'))
             extra = [c for c in extra if c.harness in exes]
-            im2, _, _, _ = evaluate(P, extra, exes, want_model=False)
+            im2, _, _, _ = evaluate(P, extra, exes, want_model=False, budget_s=max(20, budget_s - (time.time() - ts)), stop_after=1)
             searched += len(extra)
             for c, io in zip(extra, im2):
                 if io is None:
                     continue
-                res = P.oracle(c, io)
-                if io.startswith('CRASH') and res is None:
-                    res = ('no-crash', io)
+                res = _oracle_fails(P, c, io)
                 if res is not None:
                     failures.append({'case': c, 'impl': io, 'model': None, 'clause': res[0], 'detail': res[1],
                                      'sig': P.signature(c, io, res[0]) if hasattr(P, 'signature') else res[0]})
@@ -638,7 +667,7 @@ def _run_cases(P, prop_id, tier, seed, rng, t0, broken, notes, axioms, driver_ok
                              'tools/extract.py (source -> Gen fragments)', 'correspondence harness + generators + canonicalisation',
                              'Lean compiler/runtime for the executable model driver'] + list(getattr(P, 'TRUSTED', [])),
             'theorems': {t: axioms.get(t) for t in P.THEOREMS},
-            'evaluations': len(cases) + searched, 'distinct_nontrivial': len(nontrivial),
+            'evaluations': sum(1 for o in impl if o is not None) + searched, 'distinct_nontrivial': len(nontrivial),
             'rule': getattr(P, 'RULE', ''), 'samples': samples,
             'traces_validated_against_impl': sum(1 for io, mo in zip(impl, model) if io is not None and io == mo),
             'disagreements': len(disagreements), 'oracle_failures': len(failures),
